@@ -61,7 +61,7 @@ fn wrap_input(rng: &mut Rng, allow_custom: bool) -> (String, Opt) {
         t = crlf_mostly(rng, &t);
     }
     if allow_custom && rng.chance(1, 6) {
-        o.splitter = *rng.pick(&["c1", "c1", "c2", "c3", "c4"]);
+        o.splitter = *rng.pick(&["c1", "c1", "c2", "c3", "c4", "c5"]);
     }
     (t, o)
 }
@@ -516,11 +516,13 @@ pub fn c08_oracle(ctx: &mut Ctx, t: &str, o: &Opt, lines: &Option<Vec<LineOut>>)
 /// what is exercised)
 fn custom_alg_input(rng: &mut Rng) -> (String, Opt) {
     let (t, mut o) = wrap_input(rng, false);
-    // a custom algorithm, a custom separator, or both
+    // a custom algorithm, a custom separator, or both ('E', which returns no line for an empty
+    // paragraph, is used by C20 only: "at least one line" is then the algorithm's choice)
+    let algs = &crate::opt::CUSTOM_ALGS[..4];
     match rng.below(3) {
-        0 => o.alg = *rng.pick(crate::opt::CUSTOM_ALGS),
+        0 => o.alg = *rng.pick(algs),
         1 => o.sep = 'x',
-        _ => { o.alg = *rng.pick(crate::opt::CUSTOM_ALGS); o.sep = 'x'; }
+        _ => { o.alg = *rng.pick(algs); o.sep = 'x'; }
     }
     if o.sep == 'x' {
         // give the custom separator something to do
@@ -733,7 +735,16 @@ fn coloured(rng: &mut Rng, hyphen_splitter: bool) -> (String, String, Vec<(Vec<(
         let next = vis.get(i);
         if (is_ok(prev) || is_ok(next)) && !touches_hyphen(prev, next) && rng.chance(1, 4) {
             for _ in 0..1 + rng.below(2) {
-                let sq = if rng.chance(3, 4) { *rng.pick(seqs_sgr) } else { *rng.pick(seqs_osc) };
+                let long: String;
+                let sq: &str = if rng.chance(1, 150) {
+                    // a long colour sequence or hyperlink (length limits inside the escape skipper)
+                    long = if rng.chance(1, 2) {
+                        format!("\x1b[{}m", "1;".repeat([32usize, 33, 64, 500][rng.below(4)]))
+                    } else {
+                        format!("\x1b]8;;http://example.com/{}\x1b\\", "a".repeat([2070usize, 2083, 2100, 4100][rng.below(4)]))
+                    };
+                    &long
+                } else if rng.chance(3, 4) { *rng.pick(seqs_sgr) } else { *rng.pick(seqs_osc) };
                 out.push_str(sq);
                 pend.push_str(sq);
             }
@@ -981,6 +992,27 @@ pub fn c15(ctx: &mut Ctx) {
         }
         ctx.count(&format!("lines_{}", nlines.min(4)));
     }
+    // many lines: a paragraph of 60..260 indented lines in which one late line has a different
+    // (shorter or diverging) prefix — state about the common prefix must cover every line
+    for _ in 0..ctx.n(300, 6000) {
+        let n = 60 + ctx.rng.below(200);
+        let pre = *ctx.rng.pick(&["> ", "    ", "  * ", "// ", "-- "]);
+        let odd_at = 1 + ctx.rng.below(n - 1);
+        let odd = *ctx.rng.pick(&["", " ", ">", "  ", "/", "- "]);
+        let e = if ctx.rng.chance(1, 3) { "\r\n" } else { "\n" };
+        let mut t = String::new();
+        for i in 0..n {
+            t.push_str(if i == odd_at { odd } else { pre });
+            t.push_str(*ctx.rng.pick(&["x", "plain words here", "é", "w0rd"]));
+            if i + 1 < n || ctx.rng.chance(1, 2) {
+                t.push_str(e);
+            }
+        }
+        let (opu, u) = op_unfill(&t);
+        ctx.case(opu, format!("unfill({} lines, line {} with prefix {:?})", n, odd_at, odd));
+        c15_structural(ctx, &t, &u);
+        ctx.count("many_line_paragraphs");
+    }
     // structural half: arbitrary strings
     let alpha: &[&str] = &["a", " ", "\n", "\r", ">", "-"];
     let mut all: Vec<String> = Vec::new();
@@ -1116,6 +1148,37 @@ pub fn c17(ctx: &mut Ctx) {
 
 pub fn c20(ctx: &mut Ctx) {
     let gaps: &[&str] = &["", "", " ", "| ", " | ", "│", "👉", "--", "\u{301}"];
+    // custom wrap algorithms / separators (no model counterpart): never fails, and the number of
+    // rows is what the lines of `wrap` at the column width need
+    for _ in 0..ctx.n(3000, 60_000) {
+        let (mut t, mut o) = custom_alg_input(&mut ctx.rng);
+        if ctx.rng.chance(1, 4) {
+            t = (*ctx.rng.pick(&["", "\n", "\n\n", " "])).to_string();
+        }
+        if ctx.rng.chance(1, 3) {
+            o.alg = 'E';
+        }
+        let cols = 1 + ctx.rng.below(4);
+        o.width = ctx.rng.below(30);
+        let (l, m, r) = (*ctx.rng.pick(gaps), *ctx.rng.pick(gaps), *ctx.rng.pick(gaps));
+        let d = format!("wrap_columns({}, {}, {}, {:?}, {:?}, {:?})", show(&t), cols, o.show(), l, m, r);
+        ctx.count("custom_algorithm_or_separator_cases");
+        let rows = quiet(|| textwrap::wrap_columns(&t, cols, o.to_options(), l, m, r));
+        let Some(rows) = rows else {
+            ctx.fail("never fails for columns >= 1", format!("{} panicked", d), None);
+            continue;
+        };
+        let inner = o.width.saturating_sub(dw(l)).saturating_sub(dw(r)).saturating_sub(dw(m) * (cols - 1));
+        let mut oc = o.clone();
+        oc.width = std::cmp::max(inner / cols, 1);
+        if let (Some(wl), _) = real_wrap(&t, &oc) {
+            if rows.len() != (wl.len() + cols - 1) / cols {
+                ctx.fail("rows = left gap, column-major cells separated by the middle gap, right gap", format!("{}: {} rows for {} wrapped lines", d, rows.len(), wl.len()), None);
+                continue;
+            }
+        }
+        ctx.oracle_ok();
+    }
     for i in 0..ctx.n(30000, 600_000) {
         let (mut t, mut o) = wrap_input(&mut ctx.rng, false);
         let cols = 1 + ctx.rng.below(4);
